@@ -1,3 +1,8 @@
+(* RETIRED — historical record, not compiled (tools/mkproject.py does not descend into Findings/retired/).
+   F5a (2-D Simpson rejected odd divs) and F5b (1-D rejected divs = 4): repaired in /repo by 8ae06cd and bbbb24e.
+   The lemmas below were kernel-checked against the translated model of the tree BEFORE those commits (pinned commit 6c216c0);
+   on the repaired tree the full-strength statements are theorems of Props/C12.v (C12_accept_1d_2d, C12_accept_from4,
+   C12_adaptive_reverse, C12_adaptive_2d_reverse). *)
 (* C12 findings F5a / F5b on the faithful (translated) model: which `divs` the two Simpson entry points accept.
    If this file stops compiling because the defects were repaired, the check only notes it. *)
 From Coq Require Import ZArith Bool Lia.
